@@ -49,8 +49,14 @@ m = {
     },
     "engines": [
         {"name": "hist", "path": "targets/hist_run.cpp", "serves_properties":
-            [p for p in ALL if p in PROPS and PROPS[p].get("target") == "hist"],
+            [p for p in ALL if p in PROPS and ("hist" in [pt["target"] for pt in PROPS[p].get("parts", [])] or PROPS[p].get("target") == "hist")],
          "kind_free_text": "program interpreter (allocator histories) driven by rapidcheck, libFuzzer and text replay"},
+        {"name": "comp", "path": "targets/comp.cpp", "serves_properties": ["C08", "C09"],
+         "kind_free_text": "program interpreter over adapter compositions with logging leaf allocators"},
+        {"name": "fence", "path": "targets/fence.cpp", "serves_properties": ["C17"],
+         "kind_free_text": "program interpreter: write sets around low-level allocator nodes"},
+        {"name": "pure", "path": "targets/pure.cpp", "serves_properties": ["C19"],
+         "kind_free_text": "exhaustive + random comparison of arithmetic helpers with reference definitions"},
     ],
     "checks": checks,
     "not_applicable": na,
